@@ -77,8 +77,14 @@ FOLD_TYPE_REVIEW = {
 KIND_OF_UNWRAP = {"unwrap_integer": "Integer", "unwrap_byte_string": "ByteString", "unwrap_string": "String", "unwrap_bool": "Bool", "unwrap_data": "Data", "unwrap_data_list": "ProtoList", "unwrap_list": "ProtoList", "unwrap_int_list": "ProtoList", "unwrap_bls12_381_g1_element": "Bls12_381G1Element", "unwrap_bls12_381_g2_element": "Bls12_381G2Element", "unwrap_bls12_381_ml_result": "Bls12_381MlResult", "unwrap_unit": "Unit"}
 
 
+NEEDS_FLOW = True
+
+
 def run(ctx, rep):
     sh = ctx.shape
+    from . import indexorder
+    rep.rule("R02-REMOVEORDER", "optimiser: elements are removed from a Vec at recorded positions only from the highest position down", floor=1)
+    rep.guarded("R02-REMOVEORDER", lambda: indexorder.rule(sh, ctx.flow, rep, "R02-REMOVEORDER", lambda rel: rel.startswith("crates/uplc/src/optimize/"), 1))
     rep.rule("R02-COMM", "is_order_agnostic_builtin is a subset of the commutative builtins; members unwrap both arguments with the same unwrapper", floor=10)
     rep.rule("R02-FOLD", "every value-dependent failure exit of a foldable builtin is excluded by a guard of is_error_safe; type tests match the builtin's argument types", floor=60)
     rep.rule("R02-CASE", "Constr/Case are produced only by case_constr_apply_reducer, which runs after every function that cannot handle them", floor=8)
